@@ -583,6 +583,18 @@ def rule_f8(F):
     r = RuleResult("C03.F8", "no new generated block is started while a frame of the same method already holds evaluated temporaries", floor=1)
     summ = frame_summaries(F)
     by = {b.path for b in lowerer_bodies(F)}
+    # what can leave evaluated temporaries in the open frame: lowering a sub-expression (visitors), or making a registered temporary
+    # (`tmp`, directly or through helpers).  A helper that only computes something (a Var, a label, a type) does not touch the frame.
+    fills = set(visitors(F))
+    edges_ = {bb.path: {mir.callee(t) or "" for _, t in mir.calls(bb)} for bb in lowerer_bodies(F)}
+    fills |= {p_ for p_ in by if hir.last(p_) == "tmp"}
+    grow = True
+    while grow:
+        grow = False
+        for p_, out_ in edges_.items():
+            if p_ not in fills and out_ & fills:
+                fills.add(p_)
+                grow = True
     for b in lowerer_bodies(F):
         nbs = [bi for bi, t in mir.calls(b) if hir.last(mir.callee(t)) == "new_block"]
         if not nbs or not any(is_frame_op(t, "push") or summ.get(mir.callee(t), {0}) != {0} for _, t in mir.calls(b)):
@@ -615,7 +627,7 @@ def rule_f8(F):
                     if any(st):
                         flagged[bi] = t["line"]
                     cur.add(st)
-                elif name in by and hir.last(name) not in F8_NEUTRAL and not hir.last(name).startswith("emit_"):
+                elif name in fills and hir.last(name) not in F8_NEUTRAL and not hir.last(name).startswith("emit_"):
                     cur.add(tuple(True for _ in st))
                 else:
                     cur.add(st)
